@@ -134,7 +134,8 @@ Proof. exact step2_all. Qed.
      classification of every RDATA name;
    - then, in the additional section, the OPT pseudo-record (class = UDP size, TTL = upper bits of the
      extended RCODE << 24: the value of the last successful set_extended_rcode, reset by set_rcode) and
-     the unsigned TSIG record of the settings denoted by the operations ([pseudo_of]). *)
+     the unsigned TSIG record of the settings denoted by the operations ([pseudo_of]);
+   and the decoded message passes the specification's pointer-rule checker ([ptr_ok], see C13). *)
 Theorem c12_roundtrip : forall buf limit w0 ops, writer_new buf limit = Ok w0 ->
   run_contract (mkD w0 []) g0 ops -> Forall op_wf ops -> Forall op_wf2 ops -> Forall op_wf3 ops ->
   exists rr, run_writer buf limit ops = Ok rr /\
@@ -147,8 +148,12 @@ Theorem c12_roundtrip : forall buf limit w0 ops, writer_new buf limit = Ok w0 ->
         Forall2 (rr_rel xparts) (am_ns (areplay am0 ops (rr_outcomes rr))) (m_ns m) /\
         Forall2 (rr_rel xparts)
           (am_ar (areplay am0 ops (rr_outcomes rr)) ++
-           pseudo_of (exact_of (am_mode (areplay am0 ops (rr_outcomes rr)))) (hreplay ah0 ops (rr_outcomes rr)))
-          (m_ar m)
+           pseudo_of (am_mode (areplay am0 ops (rr_outcomes rr))) (hreplay ah0 ops (rr_outcomes rr)))
+          (m_ar m) /\
+        ptr_ok (firstn len b) m (am_qs (areplay am0 ops (rr_outcomes rr))) (am_an (areplay am0 ops (rr_outcomes rr)))
+          (am_ns (areplay am0 ops (rr_outcomes rr)))
+          (am_ar (areplay am0 ops (rr_outcomes rr)) ++
+           pseudo_of (am_mode (areplay am0 ops (rr_outcomes rr))) (hreplay ah0 ops (rr_outcomes rr)))
     | None => True
     end.
 Proof. exact roundtrip_full. Qed.
